@@ -133,6 +133,7 @@ Section Units.
         * apply (inv_numtags _ _ HI).
         * intros id c Hn. apply in_combine_insert; [exact Hl|]. apply nth_error_snoc in Hn.
           destruct Hn as [[_ Hn]|[-> ->]]; [right; apply (inv_cuheap _ _ HI); exact Hn|left; reflexivity].
+        * apply (inv_cfis _ _ HI).
       + split; [scbn; apply cus_mono_snoc|]. split; [scbn; apply dies_mono_refl|reflexivity].
       + exists newc. scbn. split; [apply nth_error_snoc_new|reflexivity].
   Qed.
